@@ -52,6 +52,7 @@ func run(c *vrt.Ctx) {
 	h.planPerm(add)
 	h.planNorms(add)
 	h.planLacn2(add)
+	h.planExtreme(add)
 	h.planDefects(add)
 
 	sort.SliceStable(jobs, func(i, j int) bool { return jobs[i].cost > jobs[j].cost })
